@@ -675,14 +675,50 @@ func (e *Engine) execFor(st *State, s *ast.ForStmt, label string) ([]outcome, er
 		_, h3 := e.assignedIn(s.Cond)
 		heapW = heapW || h3
 	}
+	// $i names the loop's counter, whatever the code calls it
+	var ctr *types.Var
+	if as, ok := s.Init.(*ast.AssignStmt); ok && as.Tok == token.DEFINE && len(as.Lhs) == 1 {
+		if id, ok := as.Lhs[0].(*ast.Ident); ok {
+			ctr, _ = e.info().Defs[id].(*types.Var)
+		}
+	}
+	bindCtr := func(x *State) func(env *SpecEnv) {
+		return func(env *SpecEnv) {
+			if ctr != nil {
+				if t, ok := x.vars[ctr]; ok {
+					env.Bound["$i"] = Val{t, ctr.Type()}
+				}
+			}
+		}
+	}
+	// automatic invariant of a counting loop (i := c; ...; i++ with no other
+	// assignment to i): i >= c. It is sound by construction: i starts at c and
+	// the only assignment increments it.
+	var lower *smt.T
+	if ctr != nil {
+		if inc, ok := s.Post.(*ast.IncDecStmt); ok && inc.Tok == token.INC {
+			if id, ok := inc.X.(*ast.Ident); ok && e.info().ObjectOf(id) == ctr {
+				bm, _ := e.assignedIn(s.Body)
+				if !bm[ctr] {
+					if t, ok := st.vars[ctr]; ok && t.Sort == smt.Int {
+						lo := t
+						lower = &lo
+					}
+				}
+			}
+		}
+	}
 	// invariant holds on entry
-	if err := e.checkInvs(st, s, "inv-init", nil); err != nil {
+	if err := e.checkInvs(st, s, "inv-init", bindCtr(st)); err != nil {
 		return nil, err
 	}
 	// arbitrary iteration
 	head := st.Clone()
 	e.havoc(head, mod, heapW)
-	if err := e.assumeInvs(head, s, nil); err != nil {
+	if lower != nil {
+		head.Assume(smt.Ge(head.vars[ctr], *lower))
+	}
+	if err := e.assumeInvs(head, s, bindCtr(head)); err != nil {
 		return nil, err
 	}
 	var res []outcome
@@ -718,7 +754,7 @@ func (e *Engine) execFor(st *State, s *ast.ForStmt, label string) ([]outcome, er
 				}
 				t = po[0].st
 			}
-			if err := e.checkInvs(t, s, "inv-step", nil); err != nil {
+			if err := e.checkInvs(t, s, "inv-step", bindCtr(t)); err != nil {
 				return nil, err
 			}
 		default:
